@@ -1,5 +1,16 @@
 package internal
 
+import (
+	"context"
+	"sync"
+	"sync/atomic"
+)
+
+// Model-validation corpus: small programs whose complete set of outcomes is
+// known. Every allowed outcome carries a Reach marker (the engine fails the
+// run if one is never reached - that would mean over-pruning or a too-strong
+// model), and outcomes outside the set are asserted unreachable.
+
 func VTV_Basic() {
 	x := vf.Int("x")
 	vf.Assume(x > 0)
@@ -9,13 +20,292 @@ func VTV_Basic() {
 	vf.Assert(y > x, "double-greater")
 }
 
-func VTV_Fail() {
-	x := vf.Int("x")
-	y := vf.Int("y")
-	vf.Assume(x > 0)
-	vf.Assume(y > 0)
-	vf.Assume(y < 1000)
-	if x%7 == 3 {
-		vf.Assert(x+y != 1010, "tv-fail")
+func VTV_Wrap() {
+	x := vf.Int64("x")
+	var s int8 = int8(x)
+	u := uint8(s)
+	vf.Assert(int64(u) == (x&0xff), "int8-uint8-conversion")
+	sh := uint(vf.Int("sh") & 127)
+	one := int64(1)
+	r := one << sh
+	vf.Assert(vf.Implies(sh >= 64, r == 0), "shift-ge-width-is-zero")
+	neg := int64(-8)
+	vf.Assert(vf.Implies(sh >= 64, neg>>sh == -1), "arith-shift-ge-width-is-sign")
+	vf.Reach("done")
+}
+
+func VTV_MessagePassing() {
+	var flag atomic.Int64
+	x := 0
+	r := -2
+	vf.Go(func() { x = 1; flag.Store(1) })
+	vf.Go(func() {
+		if flag.Load() == 1 {
+			r = x
+		} else {
+			r = -1
+		}
+	})
+	vf.Quiesce()
+	if r == 1 {
+		vf.Reach("saw-flag")
 	}
+	if r == -1 {
+		vf.Reach("no-flag")
+	}
+	vf.Assert(r == 1 || r == -1, "message-passing-outcome")
+}
+
+func VTV_StoreBuffering() {
+	var x, y atomic.Int64
+	r1, r2 := int64(-1), int64(-1)
+	vf.Go(func() { x.Store(1); r1 = y.Load() })
+	vf.Go(func() { y.Store(1); r2 = x.Load() })
+	vf.Quiesce()
+	switch {
+	case r1 == 0 && r2 == 1:
+		vf.Reach("01")
+	case r1 == 1 && r2 == 0:
+		vf.Reach("10")
+	case r1 == 1 && r2 == 1:
+		vf.Reach("11")
+	default:
+		vf.Assert(false, "store-buffering-00-under-sc")
+	}
+}
+
+func VTV_AtomicLostUpdate() {
+	var a atomic.Int64
+	for i := 0; i < 2; i++ {
+		vf.Go(func() { t := a.Load(); a.Store(t + 1) })
+	}
+	vf.Quiesce()
+	switch a.Load() {
+	case 1:
+		vf.Reach("lost")
+	case 2:
+		vf.Reach("both")
+	default:
+		vf.Assert(false, "lost-update-outcome")
+	}
+}
+
+func VTV_MutexCounter() {
+	var mu sync.Mutex
+	n := 0
+	for i := 0; i < 3; i++ {
+		vf.Go(func() { mu.Lock(); n++; mu.Unlock() })
+	}
+	vf.Quiesce()
+	vf.Reach("done")
+	vf.Assert(n == 3, "mutex-counter")
+}
+
+func VTV_Permutations() {
+	var mu sync.Mutex
+	log := 0
+	for i := 1; i <= 3; i++ {
+		i := i
+		vf.Go(func() { mu.Lock(); log = log*10 + i; mu.Unlock() })
+	}
+	vf.Quiesce()
+	switch log {
+	case 123:
+		vf.Reach("123")
+	case 132:
+		vf.Reach("132")
+	case 213:
+		vf.Reach("213")
+	case 231:
+		vf.Reach("231")
+	case 312:
+		vf.Reach("312")
+	case 321:
+		vf.Reach("321")
+	default:
+		vf.Assert(false, "permutation-outcome")
+	}
+}
+
+func VTV_CondVar() {
+	var mu sync.Mutex
+	cond := sync.NewCond(&mu)
+	ready := false
+	served := false
+	vf.Go(func() {
+		mu.Lock()
+		for !ready {
+			cond.Wait()
+		}
+		served = true
+		mu.Unlock()
+	})
+	vf.Go(func() { mu.Lock(); ready = true; cond.Signal(); mu.Unlock() })
+	vf.Quiesce()
+	vf.Reach("done")
+	vf.Assert(served, "condvar-waiter-served")
+}
+
+// signal without holding the lock and a predicate that is checked outside the
+// lock: the classic lost wake-up must be found (waiter parked for ever).
+func VTV_CondVarLostWakeup() {
+	var mu sync.Mutex
+	cond := sync.NewCond(&mu)
+	var ready atomic.Bool
+	served := false
+	vf.Go(func() {
+		if !ready.Load() {
+			mu.Lock()
+			cond.Wait()
+			mu.Unlock()
+		}
+		served = true
+	})
+	vf.Go(func() { ready.Store(true); cond.Signal() })
+	vf.Quiesce()
+	if served {
+		vf.Reach("served")
+	} else {
+		vf.Reach("lost-wakeup")
+	}
+}
+
+func VTV_Channels() {
+	ch := make(chan int)
+	buf := make(chan int, 2)
+	sum := 0
+	vf.Go(func() { ch <- 1; ch <- 2; close(ch) })
+	vf.Go(func() {
+		for v := range ch {
+			buf <- v * 10
+		}
+		close(buf)
+	})
+	vf.Go(func() {
+		for v := range buf {
+			sum += v
+		}
+	})
+	vf.Quiesce()
+	vf.Reach("done")
+	vf.Assert(sum == 30, "channel-pipeline-sum")
+	vf.Assert(vf.Live() == 0, "no-library-goroutines")
+}
+
+func VTV_Select() {
+	a := make(chan int, 1)
+	b := make(chan int, 1)
+	a <- 1
+	b <- 2
+	got := 0
+	select {
+	case v := <-a:
+		got = v
+	case v := <-b:
+		got = v
+	}
+	if got == 1 {
+		vf.Reach("a")
+	} else if got == 2 {
+		vf.Reach("b")
+	} else {
+		vf.Assert(false, "select-outcome")
+	}
+	// default only when nothing is ready
+	c := make(chan int)
+	select {
+	case <-c:
+		vf.Assert(false, "select-recv-on-empty")
+	default:
+		vf.Reach("default")
+	}
+}
+
+func VTV_Once() {
+	var once sync.Once
+	count := 0
+	done := [2]bool{}
+	for i := 0; i < 2; i++ {
+		i := i
+		vf.Go(func() {
+			once.Do(func() { count++; vf.Yield() })
+			vf.Assert(count == 1, "once-caller-returned-before-completion")
+			done[i] = true
+		})
+	}
+	vf.Quiesce()
+	vf.Reach("done")
+	vf.Assert(count == 1 && done[0] && done[1], "once-outcome")
+}
+
+func VTV_Context() {
+	ctx, cancel := context.WithCancel(context.Background())
+	child, cancel2 := context.WithCancel(ctx)
+	defer cancel2()
+	exited := false
+	var err error
+	vf.Go(func() { <-child.Done(); err = child.Err(); exited = true })
+	vf.Quiesce()
+	vf.Assert(!exited, "context-done-before-cancel")
+	cancel()
+	vf.Quiesce()
+	vf.Reach("cancelled")
+	vf.Assert(exited, "context-child-not-cancelled")
+	vf.Assert(err == context.Canceled, "context-err-not-canceled")
+	vf.Assert(ctx.Err() == context.Canceled, "context-parent-err")
+}
+
+func VTV_WaitGroup() {
+	var wg sync.WaitGroup
+	var n atomic.Int64
+	for i := 0; i < 2; i++ {
+		wg.Add(1)
+		go func() { defer wg.Done(); n.Add(1) }()
+	}
+	wg.Wait()
+	vf.Reach("done")
+	vf.Assert(n.Load() == 2, "waitgroup-wait-returned-early")
+}
+
+func VTV_Defer() (r int) {
+	defer func() {
+		if p := recover(); p != nil {
+			r = 7
+			vf.Reach("recovered")
+		}
+	}()
+	var m map[string]int
+	m["x"] = 1
+	vf.Assert(false, "nil-map-assignment-did-not-panic")
+	return 0
+}
+
+type vtvS struct {
+	a, b int
+	in   [2]int
+}
+
+func VTV_StructCopy() {
+	s := vtvS{a: 1, b: vf.Int("b")}
+	t := s
+	t.a = 5
+	t.in[1] = 9
+	p := &s
+	q := *p
+	q.b = 0
+	vf.Reach("done")
+	vf.Assert(s.a == 1 && s.in[1] == 0, "struct-copy-aliases")
+	vf.Assert(p.b == s.b, "pointer-deref-copy")
+	sl := []int{1, 2, 3}
+	sl2 := sl[:2]
+	sl2 = append(sl2, 42)
+	vf.Assert(sl[2] == 42, "slice-append-aliasing")
+	m := map[int]int{}
+	k := vf.Int("k")
+	vf.Assume(k >= 0)
+	vf.Assume(k < 3)
+	m[k] = 1
+	m[1] += 10
+	vf.Assert(vf.Implies(k == 1, m[1] == 11), "map-symbolic-key")
+	vf.Assert(vf.Implies(k != 1, m[1] == 10), "map-symbolic-key-2")
 }
